@@ -457,6 +457,7 @@ func (w *World) genHistory(p HistParams) *History {
 	case "batches":
 		w.scenarioBatches(h, deliver, deliverBatch)
 		w.scenarioSidePow(h, deliver)
+		w.scenarioSideChains(h, deliver)
 	case "sharedtx":
 		w.scenarioSharedTx(h, deliver)
 	}
@@ -1072,6 +1073,37 @@ func (w *World) scenarioSidePow(h *History, deliver func(*TNode) *Op) {
 		}
 	}
 	h.Stats["scenario-sidepow"]++
+}
+
+// scenarioSideChains: a sibling block that was merge-mined with two other chains becomes a side block of the next
+// block; later blocks reference it again, unchanged and with its chain list in the other order (same base hash,
+// timestamp, nonces, mining blob and proof of work: the same side block). Both must be refused - its work is counted
+// once - from the child and from the grandchild of the block that referenced it.
+func (w *World) scenarioSideChains(h *History, deliver func(*TNode) *Op) {
+	parent := w.nodeOfTop(h.NUT)
+	if parent == nil || parent.Snap == nil || parent.Parent == nil || parent.Parent.Snap == nil {
+		return
+	}
+	sib := w.build(parent.Parent, BlockSpec{TsDelta: 300, Recipient: w.wallets[0].Addr, Corrupt: "otherchain-ok"})
+	w.admit(sib)
+	deliver(sib)
+	x := w.build(parent, BlockSpec{TsDelta: 200, Recipient: w.wallets[1%len(w.wallets)].Addr, Sides: []*TNode{sib}})
+	w.admit(x)
+	deliver(x)
+	cur := x
+	for depth := 0; depth < 2 && w.nodeOfTop(h.NUT) == cur && cur.Snap != nil; depth++ {
+		for _, c := range []string{"side-rereference", "side-rereference-permuted"} {
+			y := w.build(cur, BlockSpec{TsDelta: 200, Recipient: w.wallets[2%len(w.wallets)].Addr, Corrupt: c})
+			w.admit(y)
+			deliver(y)
+			h.Stats[fmt.Sprintf("%s:depth%d:sides%d", c, depth+1, len(y.Block.SideBlocks))]++
+		}
+		z := w.build(cur, BlockSpec{TsDelta: 200, Recipient: w.wallets[3%len(w.wallets)].Addr})
+		w.admit(z)
+		deliver(z)
+		cur = z
+	}
+	h.Stats["scenario-sidechains"]++
 }
 
 // scenarioSharedTx: the SAME transactions - a stake S and, once its lock has expired, the unstake T that empties the
